@@ -117,8 +117,8 @@ harnesses! {
     fn c06_q_remove_to [10] { remove!(Dna, oracle::DNA, 64, 3, 6, ..2, 0, 2) }
     fn c06_q_remove_from [10] { remove!(Dna, oracle::DNA, 64, 3, 6, 4.., 4, 6) }
     fn c06_q_remove_full [10] { remove!(Dna, oracle::DNA, 64, 3, 6, .., 0, 6) }
-    fn c06_t_remove_toincl [10] { remove!(Dna, oracle::DNA, 64, 3, 6, ..=2, 0, 3) }
-    fn c06_t_remove_excl_start [10] { remove!(Dna, oracle::DNA, 64, 3, 6, (Bound::Excluded(1), Bound::Included(3)), 2, 4) }
+    fn c06_q_remove_toincl [10] { remove!(Dna, oracle::DNA, 64, 3, 6, ..=2, 0, 3) }
+    fn c06_q_remove_excl_start [10] { remove!(Dna, oracle::DNA, 64, 3, 6, (Bound::Excluded(1), Bound::Included(3)), 2, 4) }
     fn c06_t_remove_empty_range [10] { remove!(Dna, oracle::DNA, 64, 3, 6, 3..3, 3, 3) }
     fn c06_t_remove_amino [10] { remove!(Amino, oracle::AMINO, 21, 9, 4, 1..3, 1, 3) }
     fn c06_t_remove_miupac [10] { remove!(masked::Iupac, oracle::MIUPAC, 25, 11, 4, 1..2, 1, 2) }
